@@ -33,13 +33,13 @@ func TestC02_GeneratedDecoders(t *testing.T) {
 		set, _ := schema.GenSet(s, "vmod")
 		ws, err := NewWorkspace("vmod")
 		if err != nil {
-			rt.Fatalf("infrastructure: %v", err)
+			ev.InfraSkip(rt, c02, "%v", err)
 		}
 		defer ws.Remove()
 		kase := c05case{Sources: setSources(set)}
 		key, msg, out := buildAndEmit(ws, set, schema.Style{S: s})
 		if key == "infra" {
-			rt.Fatalf("infrastructure: %s", msg)
+			ev.InfraSkip(rt, c02, "%s", msg)
 		}
 		if key != "" {
 			// a valid schema that does not generate is C05/C14's finding, not C02's
@@ -54,7 +54,7 @@ func TestC02_GeneratedDecoders(t *testing.T) {
 		seed := rapid.IntRange(1, 1<<30).Draw(rt, "driverseed")
 		o, ok, timedOut := ws.GoTest(10*time.Minute, []string{"-v", "-run", "TestVerifC02", "-rapid.checks=6", "-rapid.seed=" + strconv.Itoa(seed), "-rapid.nofailfile"}, ids...)
 		if timedOut {
-			rt.Fatalf("infrastructure: emitted drivers did not finish in 10 min")
+			ev.InfraSkip(rt, c02, "emitted drivers did not finish in 10 min")
 		}
 		if m := c02violRe.FindStringSubmatch(o); m != nil {
 			kase.Output = clipOut(m[1])
